@@ -85,7 +85,8 @@ def body_runs(E, eng, n1, n2, over2, kind2, bs, fresh, shuf, base, i0, i1, i2, i
 
         def new_sampler():
             r = Runner(fn, var_names="out", constants={"c": 7})
-            return Sampler(r, data_name=name, default_combos={"a": CH_A, "b": CH_B}, engine=engine)
+            # keys deliberately NOT in the order of the function's signature (a, b)
+            return Sampler(r, data_name=name, default_combos={"b": CH_B, "a": CH_A}, engine=engine)
 
         s = new_sampler()
         opts = {}
@@ -180,6 +181,38 @@ def body_two_live(E, o1, o2, o3, over1, base, i0, i1, i2, i3, i4, i5):
         return True
 
 
+def body_crop_reuse(E, base, i0, i1, i2, i3):
+    """the same Crop object used for two sow_samples / grow / reap cycles"""
+    log = []
+
+    def fn(a, b, c=0):
+        log.append((a, b, c))
+        return payload(base, a, b, c)
+
+    with E() as env:
+        install_choice(env, [i0, i1, i2, i3])
+        name = env.parent + "/samples.pkl"
+        s = Sampler(Runner(fn, var_names="out", constants={"c": 7}), data_name=name,
+                    default_combos={"a": CH_A, "b": CH_B})
+        crop = s.Crop(name="smp", parent_dir=env.parent, batchsize=1)
+        table = []
+        for cycle in range(2):
+            del log[:]
+            crop.sow_samples(1, verbosity=0)
+            for bno in range(1, crop.num_batches + 1):
+                cp.grow(bno, crop=crop, verbosity=0)
+            crop.reap()
+            now = rows_of(env, s.full_df)
+            if len(now) != len(table) + 1 or now[:len(table)] != table:
+                return False
+            if not rows_ok(now[len(table):], log if env.mode == "sym" else None, {"a": CH_A, "b": CH_B}, base):
+                return False
+            if rows_of(env, mg.load_df(name)) != now:
+                return False
+            table = now
+        return True
+
+
 def body_generator(E, n, g0, g1, base):
     """combos values may be callables: their return values are the arguments"""
     n = concretize(n, 1, 2)
@@ -229,6 +262,10 @@ CONDS = (
                         "file (every assignment), the first run optionally with a combos override: every run appends "
                         "exactly one row to what is on disk, keeps all earlier rows, and draws from the choices in "
                         "force for that run"),
+       make_cond(_G, "crop_reuse", body_crop_reuse, "base:int i0:int i1:int i2:int i3:int",
+                 ["0 <= i0 <= 1 and 0 <= i1 <= 1 and 0 <= i2 <= 1 and 0 <= i3 <= 1"], timeout=300,
+                 bounds="one Crop object used for two sow_samples(1) / grow / reap cycles, every drawn index: each "
+                        "cycle's row pairs that cycle's drawn arguments with the function's value"),
        make_cond(_G, "generator", body_generator, "n:int g0:int g1:int base:int", ["1 <= n <= 2"], timeout=120,
                  bounds="a callable in combos supplies the argument values (symbolic), n<=2")]
 )
